@@ -317,34 +317,28 @@ def run(ctx):
     rule_every_heading(ctx, rep, toc, rh, sup, prh, cfg)
     rule_wired(ctx, rep, toc, rh)
 
-    # parse_rendered_heading removes tags
+    # parse_rendered_heading removes tags: folded on one rendered heading of every shape the HTML renderer produces
+    # (element with inline elements, attributes, void elements, escaped text, no tags at all)
     rep.instance('R-TOC-ORDER')
-    rec = {}
-
-    def runner2(oracle):
+    rows = [('<h1>Title</h1>', 'Title'), ('<h2>a <em>b</em> c</h2>', 'a b c'), ('<h3><code>x</code></h3>', 'x'),
+            ('<h2><a href="/u" title="t">l</a> m</h2>', 'l m'), ('<h4>a<br />b</h4>', 'ab'),
+            ('<h1>1 &lt; 2 &amp; 3</h1>', '1 &lt; 2 &amp; 3'), ('plain', 'plain'), ('<h6></h6>', ''),
+            ('<h2><img src="i.png" alt="al" /> z</h2>', ' z')]
+    bad_rows = []
+    for rendered_, want_ in rows:
         it = Interp(model)
-        it.reset_run(oracle)
-        it.intrinsics['re.sub'] = lambda interp, args, kwargs: rec.setdefault('args', args) and 'X'
-        # a precompiled pattern object: <pattern>.sub(repl, string)
-        it.intrinsics['rx.sub'] = lambda interp, args, kwargs: rec.setdefault('args', [args[0].pattern] + list(args[1:])) and 'X'
-        return it.call_function(prh, [AbsStr(label='rendered')], {}) if prh.kind == 'staticmethod' else \
-            it.call_function(prh, [T.clone_obj(cfg.obj), AbsStr(label='rendered')], {})
-    list(enumerate_paths(runner2, 8))
-    a = rec.get('args')
-    ok = False
-    detail = 'parse_rendered_heading does not apply re.sub to the rendered heading'
-    if a is not None and len(a) >= 3 and isinstance(a[0], str) and a[1] == '' and isinstance(a[2], AbsStr):
-        A_ = rx.ALPHABET_CORE
+        it.reset_run(Oracle())
         try:
-            tags = rx.Lang(r'</?[A-Za-z][A-Za-z0-9]*( [a-z]+="[^"<>\n]*")*( /)?>', mode='full', alphabet=A_)
-            pat = rx.Lang(a[0], mode='full', alphabet=A_)
-            w = rx.witness([tags], [pat], A_)
-            text = rx.Lang(r'[^<>]+', mode='full', alphabet=A_)
-            w2 = rx.witness([text, pat], [], A_)
-            ok = w is None and w2 is None
-            detail = 'tag not removed: %r / plain text removed: %r' % (w, w2)
-        except rx.RxUnsupported as e:
-            detail = 'pattern not analysable: %s' % e
+            got_ = it.call_function(prh, [rendered_], {}) if prh.kind == 'staticmethod' else \
+                it.call_function(prh, [T.clone_obj(cfg.obj), rendered_], {})
+        except Raised as e:
+            got_ = 'raises %s' % e.exc.kind
+        if got_ != want_:
+            bad_rows.append((rendered_, got_, want_))
+    ok = not bad_rows
+    detail = 'for the rendered heading %r it gives %r, not %r (%d of %d rows differ)' % (bad_rows[0] + (len(bad_rows), len(rows))) \
+        if bad_rows else ''
+    a = [len(rows)]
     rep.obligation('R-TOC-ORDER', ok, {'parse_rendered_heading': repr(a[:2]) if a else None})
     if not ok:
         rep.find('R-TOC-ORDER', prh.short, 'strip-tags', detail, loc(unit, prh.node))
